@@ -10,8 +10,11 @@ from mygrad.typing import ArrayLike
 
 def _softmax(x, kwargs):
     if x.ndim > 0 and x.size > 0:
+        if issubclass(x.dtype.type, np.integer):
+            # cast before subtracting: integer arithmetic wraps around
+            x = x.astype(float)
         x = x - x.max(**kwargs)
-        target = x.astype(float) if issubclass(x.dtype.type, np.integer) else x
+        target = x
 
         target = np.exp(x, out=target)
         target /= target.sum(**kwargs)
